@@ -200,50 +200,67 @@ Definition quic_decrypt (a : alg) (key iv : bytes) (ct pn aad : bytes) : result 
 
 Variable ftable : list (list Z * fclass).
 
-(* decrypt_packet *)
-Definition decrypt_packet (s : qsession) (pk : qpacket) : result qsession :=
-  (* the decryptor is chosen outside the try: a missing one is an uncaught KeyError *)
-  do r <- (match qp_type pk with
-           | QOneRtt =>
-               do s1 <- check_key_epoch s (qp_key_phase pk) (qp_isserver pk);
-               match qs_app s1, qs_cipher s1 with
-               | Some gens, Some ci =>
-                   let ep := if qp_isserver pk then qs_epoch_server s1 else qs_epoch_client s1 in
-                   match nth_error gens (Z.to_nat ep) with
-                   | Some g => Ok (s1, ci, if qp_isserver pk then (g_skey g, g_siv g) else (g_ckey g, g_civ g))
-                   | None => Exn IndexError
-                   end
-               | _, _ => Exn KeyError
-               end
-           | QInitial => match qs_initial s with
-                         | Some d => Ok (s, AESGCM, if qp_isserver pk then (qd_skey d, qd_siv d) else (qd_ckey d, qd_civ d)) | None => Exn KeyError end
-           | QHandshake => match qs_handshake s, qs_cipher s with
-                           | Some d, Some ci => Ok (s, ci, if qp_isserver pk then (qd_skey d, qd_siv d) else (qd_ckey d, qd_civ d)) | _, _ => Exn KeyError end
-           | _ => match qs_early s, qs_cipher s with
-                  | Some (k, iv), Some ci => Ok (s, ci, (k, iv)) | _, _ => Exn KeyError end      (* 0-RTT: client keys whatever the direction flag *)
-           end);
-  let '(s1, ci, (key, iv)) := r in
-  (* try: *)
-  match get_full_packet_number (qs_pn s1) (qp_isserver pk) (space_of (qp_type pk)) (qp_pn pk) with
-  | Exn _ => Ok s1
-  | Ok (pn, pns) =>
-      let s2 := upd_pn s1 pns in
-      let aad := match qp_type pk with
-                 | QInitial => qp_first_byte pk ++ qp_version pk ++ qp_dcid_len pk ++ qp_dcid pk ++ qp_scid_len pk ++ qp_scid pk ++
-                               qp_token_len_bytes pk ++ qp_token pk ++ qp_packet_len_bytes pk ++ qp_pn pk
-                 | QOneRtt => qp_first_byte pk ++ qp_dcid pk ++ qp_pn pk
-                 | _ => qp_first_byte pk ++ qp_version pk ++ qp_dcid_len pk ++ qp_dcid pk ++ qp_scid_len pk ++ qp_scid pk ++ qp_packet_len_bytes pk ++ qp_pn pk
-                 end in
-      match (if (match qp_type pk with QZeroRtt => true | _ => false end) && qp_isserver pk
-             then Exn AttributeError            (* an early decryptor has no server side *)
-             else quic_decrypt ci key iv (qp_payload pk) pn aad) with
-      | Exn _ => Ok s1                   (* a packet that does not authenticate leaves the largest packet numbers alone *)
-      | Ok payload =>
-          match parse_frames ftable payload with
-          | Exn _ => Ok s2
-          | Ok fs => Ok (handle_frames s2 pk fs)
+(* what check_key_epoch leaves behind when it raises: the epoch and phase counters are advanced first *)
+Definition bump_epoch (s : qsession) (key_phase : Z) (isserver : bool) : qsession :=
+  let ec := if negb isserver && negb (qs_phase_client s =? key_phase) then qs_epoch_client s + 1 else qs_epoch_client s in
+  let es := if isserver && negb (qs_phase_server s =? key_phase) then qs_epoch_server s + 1 else qs_epoch_server s in
+  let pc := if isserver then qs_phase_client s else key_phase in
+  let ps := if isserver then key_phase else qs_phase_server s in
+  qs_with s (qs_version s) (qs_client_cids s) (qs_server_cids s) (qs_hp s) (qs_initial s) (qs_handshake s) (qs_app s) (qs_early s)
+          ec es pc ps (qs_hash s) (qs_cipher s) (qs_keylen s) (qs_tls s) (qs_pn s) (qs_output s) (qs_ids s).
+
+(* the first part of decrypt_packet's try block: the decryptor for the packet, None when selecting it raises (no decryptor of that
+   kind, key epoch outside the list of generations, key update failing) *)
+Definition select_decryptor (s : qsession) (pk : qpacket) : qsession * option (alg * (bytes * bytes)) :=
+  match qp_type pk with
+  | QOneRtt =>
+      match check_key_epoch s (qp_key_phase pk) (qp_isserver pk) with
+      | Exn _ => (bump_epoch s (qp_key_phase pk) (qp_isserver pk), None)
+      | Ok s1 =>
+          match qs_app s1, qs_cipher s1 with
+          | Some gens, Some ci =>
+              let ep := if qp_isserver pk then qs_epoch_server s1 else qs_epoch_client s1 in
+              match nth_error gens (Z.to_nat ep) with
+              | Some g => (s1, Some (ci, if qp_isserver pk then (g_skey g, g_siv g) else (g_ckey g, g_civ g)))
+              | None => (s1, None)
+              end
+          | _, _ => (s1, None)
           end
       end
+  | QInitial => match qs_initial s with
+                | Some d => (s, Some (AESGCM, if qp_isserver pk then (qd_skey d, qd_siv d) else (qd_ckey d, qd_civ d))) | None => (s, None) end
+  | QHandshake => match qs_handshake s, qs_cipher s with
+                  | Some d, Some ci => (s, Some (ci, if qp_isserver pk then (qd_skey d, qd_siv d) else (qd_ckey d, qd_civ d))) | _, _ => (s, None) end
+  | _ => match qs_early s, qs_cipher s with
+         | Some (k, iv), Some ci => (s, Some (ci, (k, iv))) | _, _ => (s, None) end      (* 0-RTT: client keys whatever the direction flag *)
+  end.
+
+(* decrypt_packet: everything happens inside one try; an exception is reported ("Could not decrypt Quic Packet") and the run goes on *)
+Definition decrypt_packet (s : qsession) (pk : qpacket) : result qsession :=
+  match select_decryptor s pk with
+  | (s1, None) => Ok s1
+  | (s1, Some (ci, (key, iv))) =>
+    match get_full_packet_number (qs_pn s1) (qp_isserver pk) (space_of (qp_type pk)) (qp_pn pk) with
+    | Exn _ => Ok s1
+    | Ok (pn, pns) =>
+        let s2 := upd_pn s1 pns in
+        let aad := match qp_type pk with
+                   | QInitial => qp_first_byte pk ++ qp_version pk ++ qp_dcid_len pk ++ qp_dcid pk ++ qp_scid_len pk ++ qp_scid pk ++
+                                 qp_token_len_bytes pk ++ qp_token pk ++ qp_packet_len_bytes pk ++ qp_pn pk
+                   | QOneRtt => qp_first_byte pk ++ qp_dcid pk ++ qp_pn pk
+                   | _ => qp_first_byte pk ++ qp_version pk ++ qp_dcid_len pk ++ qp_dcid pk ++ qp_scid_len pk ++ qp_scid pk ++ qp_packet_len_bytes pk ++ qp_pn pk
+                   end in
+        match (if (match qp_type pk with QZeroRtt => true | _ => false end) && qp_isserver pk
+               then Exn AttributeError            (* an early decryptor has no server side *)
+               else quic_decrypt ci key iv (qp_payload pk) pn aad) with
+        | Exn _ => Ok s1                   (* a packet that does not authenticate leaves the largest packet numbers alone *)
+        | Ok payload =>
+            match parse_frames ftable payload with
+            | Exn _ => Ok s2
+            | Ok fs => Ok (handle_frames s2 pk fs)
+            end
+        end
+  end
   end.
 
 (* QuicSession.handle_quic_packet for the packet just extracted *)
